@@ -421,7 +421,7 @@ func TestVerifC13Pipeline(t *testing.T) {
 	rapid.Check(t, func(rt *rapid.T) {
 		g := vfNewG(rt, env.pools)
 		body, info := vfGenPipelineBody(g, "", 4, true)
-		vfSteerPipeline(vf, g, body)
+		vfFixPolicyRefs(g, body)
 		if info.DanglingNS && vf.HasKnown("flow-node-namespace-without-request panic=interface conversion") && vfChance(rt, "steer-away-from-known", 80) {
 			// known finding: steer away by construction most of the time (still produced sometimes,
 			// so that a fix makes the class green instead of invisible)
@@ -522,7 +522,7 @@ func TestVerifC13GlobalFilter(t *testing.T) {
 		for _, side := range []string{"beforePipeline", "afterPipeline"} {
 			if g.chance(side, "present", 70) {
 				body, info := vfGenPipelineBody(g, side+".", 2, false)
-				vfSteerPipeline(vf, g, body)
+				vfFixPolicyRefs(g, body)
 				if !info.HasFlow && g.chance(side, "force-flow", 80) {
 					// without a flow the section is ignored by GlobalFilter: give it the default order
 					fl := []interface{}{}
